@@ -38,7 +38,31 @@ def altloc_variant(rnd, lines, kind=None):
     items = pdbgen.split_residues(lines)
     res = [k for k, it in enumerate(items) if it[0] == "res" and it[2][0].startswith("ATOM")]
     tags = rnd.choice([("A", "B"), ("B", "C"), ("1", "2"), ("A", "B", "C")])
-    kind = rnd.randrange(5) if kind is None else kind
+    kind = rnd.randrange(6) if kind is None else kind
+    if kind == 5 and len(res) >= 3:
+        # three conformations; one position is a point mutant between the first two (ALA with backbone + CB in A, the original
+        # residue in B) and has no atom of its own in the third, which exists through the side chain of another residue (A / C)
+        cand = [k for k in res if items[k][1][3] not in ("ALA", "GLY", "PRO") and any(l[12:16].strip() == "CB" for l in items[k][2])]
+        if cand:
+            k1 = rnd.choice(cand)
+            k2 = rnd.choice([k for k in res if k != k1])
+            new = []
+            for l in items[k1][2]:
+                if l[12:16].strip() in ("N", "CA", "C", "O", "CB"):
+                    new.append(pdbgen.setcols(pdbgen.setcols(l, 16, 17, "A"), 17, 20, "ALA"))
+            new += [pdbgen.setcols(l, 16, 17, "B") for l in items[k1][2]]
+            items[k1] = ("res", items[k1][1], new)
+            new2 = []
+            for l in items[k2][2]:
+                if l[12:16].strip() in ("N", "CA", "C", "O"):
+                    new2.append(l)
+                else:
+                    x, y, z = pdbgen.coords(l)
+                    new2.append(pdbgen.setcols(l, 16, 17, "A"))
+                    new2.append(pdbgen.set_coords(pdbgen.setcols(l, 16, 17, "C"), x + 0.05, y - 0.03, z + 0.02))
+            items[k2] = ("res", items[k2][1], new2)
+            return pdbgen.flatten(items)
+        kind = 2
     picks = rnd.sample(res, min(len(res), rnd.randint(1, 3)))
     iso = [k for k in res if items[k][1][3] in ISOSTERIC or items[k][1][3] in SAME_ANCHOR]
     if kind == 4:
@@ -120,7 +144,7 @@ def gen_inputs(ctx):
     # a protein-sized structure (buried groups, many determinants) with a few alternate locations
     for n, t in pdbgen.test_files(["3SGB-subset"] if ctx.quick() else ["3SGB", "1HPX"]):
         out.append((n + "-altloc", pdbgen.text(pdbgen.altloc_atoms(rnd, pdbgen.lines_of(t), rnd.randint(1, 3))), "altloc"))
-    for i in range(14 if ctx.quick() else 150):
+    for i in range(17 if ctx.quick() else 150):
         lines = pdbgen.fragment(rnd, nres=rnd.randint(3, 9))
         lines = pdbgen.relabel(lines, chain="A")
         if rnd.random() < 0.6:
@@ -134,7 +158,7 @@ def gen_inputs(ctx):
                     break
                 lines = pdbgen.relabel(pdbgen.fragment(rnd, nres=rnd.randint(3, 9)), chain="A")
         if i % 3 == 0:
-            kind = (i // 3) % 5          # every kind of alternate, the isosteric mutants included, in every tier
+            kind = (i // 3) % 6          # every kind of alternate, the mutants included, in every tier
             for _ in range(30):
                 if kind != 4 or any(l[17:20] in SAME_ANCHOR for l in lines):
                     break
